@@ -170,6 +170,41 @@ def minimise(binary, refs, scenario, cls, subject):
     return cur
 
 
+def miri_run(manifest_dir, miri_seed, scenario):
+    env = dict(os.environ)
+    env.update({"MIRIFLAGS": "-Zmiri-seed=%d -Zmiri-preemption-rate=0.1 -Zmiri-ignore-leaks" % miri_seed, "CARGO_NET_OFFLINE": "true",
+                "CARGO_TARGET_DIR": os.path.join(C.build_root(), "target-miri"), "RUSTFLAGS": "--cfg " + C.GUARD})
+    p = subprocess.run(["cargo", "+nightly", "miri", "run", "--offline", "--release", "-q", "--", str(scenario)], cwd=manifest_dir, env=env,
+                       stdout=subprocess.PIPE, stderr=subprocess.PIPE, text=True)
+    return p.returncode, p.stdout, p.stderr
+
+
+def miri_tier(seed, n):
+    """Schedule dimension: three threads parsing concurrently under Miri's seeded preemptive scheduler
+    (which also reports data races and UB). -> (runs, [failures])"""
+    import concurrent.futures
+    C.require_build("parsesim-miri")  # generates the manifest (and proves the scenario passes natively)
+    mdir = os.path.join(C.build_root(), "parsesim-miri")
+    rc, out, err = miri_run(mdir, 0, 0)  # first run builds; serial
+    if rc != 0 and "OK scenario" not in out and "MISMATCH" not in out and "Undefined Behavior" not in err and "Data race" not in err:
+        raise C.HarnessError("miri tier could not be built/run:\n" + err[-1500:])
+    base = C.mix(seed, C.tag("C18-miri"))
+    jobs = [((C.mix(base, i) % 100000), i % 8) for i in range(n)]
+    fails = []
+    with concurrent.futures.ThreadPoolExecutor(max_workers=C.jobs()) as pool:
+        for (ms, sc), (rc, out, err) in zip(jobs, pool.map(lambda j: miri_run(mdir, j[0], j[1]), jobs)):
+            if rc == 0 and "OK scenario" in out:
+                continue
+            if "MISMATCH" in out:
+                fails.append(("schedule-dependent-result", ms, sc, out.strip()))
+            elif "Undefined Behavior" in err or "Data race" in err or "data race" in err:
+                line = next((l for l in err.splitlines() if l.startswith("error")), "error")
+                fails.append(("miri-ub-or-data-race", ms, sc, line))
+            else:
+                raise C.HarnessError("miri run failed for another reason (seed %d scenario %d):\n%s" % (ms, sc, err[-1500:]))
+    return len(jobs), fails
+
+
 def budget(tier):
     return {"quick": 4000, "thorough": 200000}[tier]
 
@@ -264,6 +299,20 @@ def run(tier, seed):
             known_hits.append((k, doc, path))
         else:
             new_violations.append((doc, path))
+    miri_runs = 0
+    if tier == "thorough":
+        miri_runs, mfails = miri_tier(seed, 128)
+        seen = set()
+        for (cls, ms, sc, msg) in mfails:
+            if cls in seen:
+                continue
+            seen.add(cls)
+            path = C.replay_path(PROP, C.safe_name("%s-seed%d-%s" % (tier, seed, cls)) + ".json")
+            doc = {"property": PROP, "class": cls, "subject": "miri", "kind": "miri", "miri_seed": ms, "scenario_number": sc, "message": msg,
+                   "count": sum(1 for f in mfails if f[0] == cls), "subjects": ["sim/parsesim-miri scenario %d" % sc], "scenario": {"ops": []}, "original_length": 0,
+                   "group": [cls, "miri"], "replay_cmd": "./check replay " + path}
+            json.dump(doc, open(path, "w"), indent=1)
+            new_violations.append((doc, path))
     for k, doc, path in known_hits:
         C.say("KNOWN-FINDING: property=%s %s [class=%s subject=%s]" % (PROP, k["what"], doc["class"], doc["group"][1]))
     for doc, path in new_violations:
@@ -282,6 +331,8 @@ def run(tier, seed):
         "samples": samples,
         "operations_observed": ops_total,
         "reference_processes": refs.processes,
+        "miri_runs": miri_runs,
+        "miri_note": "thorough tier only: 3 threads x 4 operations on one shared and three private input objects under Miri's seeded preemptive scheduler (-Zmiri-preemption-rate=0.1), release profile so the unchecked slicing paths run under the UB / data-race detector",
         "distinct_operations": len(refs.map),
         "probes": totals,
         "runs_per_hour": int(evaluations / max(wall, 1e-9) * 3600),
@@ -302,8 +353,19 @@ def run(tier, seed):
 
 def replay(path):
     sim_env()
-    binary = C.require_build("parsesim")
     doc = json.load(open(path))
+    if doc.get("kind") == "miri":
+        C.require_build("parsesim-miri")
+        rc, out, err = miri_run(os.path.join(C.build_root(), "parsesim-miri"), doc["miri_seed"], doc["scenario_number"])
+        C.say(out.strip())
+        if rc != 0 and ("MISMATCH" in out or "Undefined Behavior" in err or "ata race" in err):
+            C.say("\n".join(err.splitlines()[-12:]))
+            C.say("REPRODUCED %s" % doc["class"])
+            C.say("VIOLATION property=%s replay=%s" % (PROP, path))
+            return 1
+        C.say("NOT-REPRODUCED %s" % doc["class"])
+        return 0
+    binary = C.require_build("parsesim")
     refs = Refs(binary)
     found = failure_classes(binary, refs, doc["scenario"])
     hit = [f for f in found if f[0] == doc["class"] and f[1] == doc["subject"]]
